@@ -335,6 +335,7 @@ func c19Group(c *Ctx, raw json.RawMessage) {
 			c.Rule("groupBy:" + tname)
 			var got [][]int
 			var gerr error
+			kindBad := ""
 			o := guarded(5*time.Second, func() (string, error) {
 				it, err := impl(gc.N, xs)
 				if err != nil {
@@ -345,6 +346,10 @@ func c19Group(c *Ctx, raw json.RawMessage) {
 					g := it.Next()
 					if g == nil {
 						break
+					}
+					// a group is itself a sequence (a consecutive part of xs), not a pointer to one
+					if k := reflect.ValueOf(g).Kind(); k != reflect.Slice && k != reflect.Array {
+						kindBad = fmt.Sprintf("%T", g)
 					}
 					got = append(got, c19IDs(g))
 				}
@@ -360,6 +365,8 @@ func c19Group(c *Ctx, raw json.RawMessage) {
 				c.Fail(sig+":crash", fmt.Sprintf("%s(%d, %s len %d): hang=%v panic=%s", iname, gc.N, tname, gc.Len, o.Hang, o.Panic), cas)
 			case gc.Error != (gerr != nil):
 				c.Fail(sig+":error", fmt.Sprintf("%s(%d, %s len %d): error=%v, want error=%v", iname, gc.N, tname, gc.Len, gerr, gc.Error), cas)
+			case kindBad != "":
+				c.Fail(sig+":group-type", fmt.Sprintf("%s(%d, %s len %d) yields a group of type %s: not a sequence", iname, gc.N, tname, gc.Len, kindBad), cas)
 			case !gc.Error && !reflect.DeepEqual(got, want) && !(len(got) == 0 && len(want) == 0):
 				c.Fail(sig, fmt.Sprintf("%s(%d, %s len %d) yields %v, want %v", iname, gc.N, tname, gc.Len, got, want), cas)
 			}
